@@ -53,8 +53,9 @@ Fixpoint int_body_ok (prev_digit : bool) (s : str) : bool :=
               else false
   end.
 
-(* int(str): None = ValueError.  Only called on all-ASCII-or-whitespace input (see Fields.v). *)
-Definition parse_int (s : str) : option Z :=
+(* int(str) as (negative?, magnitude): None = ValueError.  Only meaningful on input whose characters are
+   ASCII or whitespace (non-ASCII digits are accepted by Python too: see Fields.v `num_str_modelled`). *)
+Definition parse_int_sm (s : str) : option (bool * Z) :=
   let t := strip_by is_num_space s in
   let '(neg, body) := match t with
                       | 45 :: r => (true, r)
@@ -62,8 +63,13 @@ Definition parse_int (s : str) : option Z :=
                       | _ => (false, t)
                       end in
   if int_body_ok false body
-  then let v := digits_val 0%Z (filter is_digit body) in Some (if neg then (- v)%Z else v)
+  then Some (neg, digits_val 0%Z (filter is_digit body))
   else None.
+Definition parse_int (s : str) : option Z :=
+  match parse_int_sm s with
+  | Some (neg, v) => Some (if neg then (- v)%Z else v)
+  | None => None
+  end.
 
 (* str(int) *)
 Fixpoint pos_digits (fuel : nat) (z : Z) (acc : str) : str :=
